@@ -284,7 +284,9 @@ def get_sigma(X0T):
     else:
         assert nspin == 2
         sigma = np.zeros((3, X0T.shape[-1]), order="F")
-        zeta = (rho[0] - rho[1]) / (rho[0] + rho[1])
+        # guard against a vanishing (or underflowing) total density
+        rhot = np.maximum(rho[0] + rho[1], 1e-150)
+        zeta = (rho[0] - rho[1]) / rhot
         zfac = 0.5 * (1 - zeta * zeta) / (1 + zeta * zeta)
         sigma[0] = sigma_s[0]
         sigma[2] = sigma_s[1]
@@ -304,13 +306,15 @@ def get_dsigma(X0T, vX0T, vrho, vsigma):
         assert nspin == 2
         vrho *= 0.5
         vsigma *= 0.25
-        zeta = (rho[0] - rho[1]) / (rho[0] + rho[1])
+        # guard against a vanishing (or underflowing) total density
+        rhot = np.maximum(rho[0] + rho[1], 1e-150)
+        zeta = (rho[0] - rho[1]) / rhot
         zfac = 0.5 * (1 - zeta * zeta) / (1 + zeta * zeta)
         dzfac = -2.0 * zeta / (1 + zeta * zeta) ** 2
         vsigma_s = vsigma[::2] + vsigma[1] * zfac
         vzfac = vsigma[1] * (sigma_s[0] + sigma_s[1]) * dzfac
-        vX0T[0, 0] += vzfac * 2 * rho[1] / (rho[0] + rho[1]) ** 2
-        vX0T[1, 0] -= vzfac * 2 * rho[0] / (rho[0] + rho[1]) ** 2
+        vX0T[0, 0] += vzfac * 2 * (rho[1] / rhot) / rhot
+        vX0T[1, 0] -= vzfac * 2 * (rho[0] / rhot) / rhot
     vX0T[:, 0] += vrho + vsigma_s * const * p * (8.0 / 3) * rho ** (5.0 / 3)
     vX0T[:, 1] += vsigma_s * const * rho ** (8.0 / 3)
 
